@@ -17,7 +17,10 @@ Which modes does the documented precondition admit?
   classic_2sum    floating point, round-nearest                RNE, RNA
   classic_2mul    floating point, round-nearest                RNE, RNA
   classic_2fma    floating point, round-nearest                RNE, RNA
-  veltkamp_split  (none stated; Veltkamp's theorem is for round-to-nearest)   RNE, RNA
+  veltkamp_split  (none stated; Veltkamp's theorem is for round-to-nearest)   RNE, RNA  (one contract per p: every 1 <= s <= p - 1)
+
+classic_2fma is checked on the box ea = eb = 0, ec in [-6,6] (three operands); contracts/c20_eft_bounded.py keeps the
+full box |e| <= 6 for p = 3 under RNE.  Every function is covered for ODD and even p in {2,3,4,5}.
 """
 from speclib import *
 from spec.c20 import *
@@ -133,18 +136,110 @@ class eftx_classic_2sum(Contract):
         return {}
 
 
-class eftx_veltkamp_split(Contract):
+class eftx_veltkamp_split_p2(Contract):
     target = 'fpy2.libraries.eft:veltkamp_split'
     params = {'mx': 'int', 'ex': 'int', 's': 'int', 'p': 'int', 'rm': 'RoundingMode', 'ctx': 'FpyCtx'}
     returns = 'tuple[Fraction, Fraction]'
     properties = ['C20']
     split = ['p', 's', 'rm']
     options = {'dialect': 'fpy', 'fpy_rnd': 'param', 'bounded': 6, 'bv_enum': True, 'bounded_try_ms': 150000, 'bounded_ms': 60000,
-               'int_cases': {'p': [2, 3, 4, 5], 's': [1, 2, 3, 4]}, 'enum_cases': {'rm': ['RNE', 'RNA']},
+               'int_cases': {'p': [2], 's': [1]}, 'enum_cases': {'rm': ['RNE', 'RNA']},
                'fpy_operands': {'x': ('mx', 'ex')}}
-    note = ('BOUNDED: RNE and RNA at p digits, p in {2,3,4,5}, EVERY split position 1 <= s <= p - 1 (enough precision: the '
-            'constant 2^s + 1 must be representable; cases with s > p - 1 are outside the precondition and vacuous), '
-            'exponents in [-6,6]; includes the odd-precision split points ceil(p/2) that classic_2mul uses')
+    note = ('BOUNDED: RNE and RNA at p = 2 digits, EVERY split position 1 <= s <= p - 1 (enough precision: the constant '
+            '2^s + 1 must be representable), exponents in [-6,6]; includes the split point ceil(p/2) that classic_2mul uses')
+
+    def pre(mx, ex, s, p, rm, ctx):
+        return {'mx': -pow2(p) < mx and mx < pow2(p), 'ex': -6 <= ex and ex <= 6, 's_range': 1 <= s and s <= p - 1}
+
+    def post(mx, ex, s, p, rm, ctx, result):
+        x = fpy_operand(mx, ex)
+        hi, lo = fpy_val(result)
+        return {
+            'exact': hi + lo == x,
+            'lo_small': abs(lo) * pow2(p - s) <= abs(hi) * 1 or x == 0,
+            'hi_fits': hi == fpy_rne(hi, p - s),
+            # radix 2: the low part even fits s - 1 digits when s >= 2 (its sign carries one digit); s digits always
+            'lo_fits': lo == fpy_rne(lo, s),
+            'hi_nearest': abs(hi - x) == abs(fpy_rne(x, p - s) - x),
+        }
+
+    def raises(mx, ex, s, p, rm, ctx):
+        return {}
+
+
+class eftx_veltkamp_split_p3(Contract):
+    target = 'fpy2.libraries.eft:veltkamp_split'
+    params = {'mx': 'int', 'ex': 'int', 's': 'int', 'p': 'int', 'rm': 'RoundingMode', 'ctx': 'FpyCtx'}
+    returns = 'tuple[Fraction, Fraction]'
+    properties = ['C20']
+    split = ['p', 's', 'rm']
+    options = {'dialect': 'fpy', 'fpy_rnd': 'param', 'bounded': 6, 'bv_enum': True, 'bounded_try_ms': 150000, 'bounded_ms': 60000,
+               'int_cases': {'p': [3], 's': [1, 2]}, 'enum_cases': {'rm': ['RNE', 'RNA']},
+               'fpy_operands': {'x': ('mx', 'ex')}}
+    note = ('BOUNDED: RNE and RNA at p = 3 digits, EVERY split position 1 <= s <= p - 1 (enough precision: the constant '
+            '2^s + 1 must be representable), exponents in [-6,6]; includes the split point ceil(p/2) that classic_2mul uses')
+
+    def pre(mx, ex, s, p, rm, ctx):
+        return {'mx': -pow2(p) < mx and mx < pow2(p), 'ex': -6 <= ex and ex <= 6, 's_range': 1 <= s and s <= p - 1}
+
+    def post(mx, ex, s, p, rm, ctx, result):
+        x = fpy_operand(mx, ex)
+        hi, lo = fpy_val(result)
+        return {
+            'exact': hi + lo == x,
+            'lo_small': abs(lo) * pow2(p - s) <= abs(hi) * 1 or x == 0,
+            'hi_fits': hi == fpy_rne(hi, p - s),
+            # radix 2: the low part even fits s - 1 digits when s >= 2 (its sign carries one digit); s digits always
+            'lo_fits': lo == fpy_rne(lo, s),
+            'hi_nearest': abs(hi - x) == abs(fpy_rne(x, p - s) - x),
+        }
+
+    def raises(mx, ex, s, p, rm, ctx):
+        return {}
+
+
+class eftx_veltkamp_split_p4(Contract):
+    target = 'fpy2.libraries.eft:veltkamp_split'
+    params = {'mx': 'int', 'ex': 'int', 's': 'int', 'p': 'int', 'rm': 'RoundingMode', 'ctx': 'FpyCtx'}
+    returns = 'tuple[Fraction, Fraction]'
+    properties = ['C20']
+    split = ['p', 's', 'rm']
+    options = {'dialect': 'fpy', 'fpy_rnd': 'param', 'bounded': 6, 'bv_enum': True, 'bounded_try_ms': 150000, 'bounded_ms': 60000,
+               'int_cases': {'p': [4], 's': [1, 2, 3]}, 'enum_cases': {'rm': ['RNE', 'RNA']},
+               'fpy_operands': {'x': ('mx', 'ex')}}
+    note = ('BOUNDED: RNE and RNA at p = 4 digits, EVERY split position 1 <= s <= p - 1 (enough precision: the constant '
+            '2^s + 1 must be representable), exponents in [-6,6]; includes the split point ceil(p/2) that classic_2mul uses')
+
+    def pre(mx, ex, s, p, rm, ctx):
+        return {'mx': -pow2(p) < mx and mx < pow2(p), 'ex': -6 <= ex and ex <= 6, 's_range': 1 <= s and s <= p - 1}
+
+    def post(mx, ex, s, p, rm, ctx, result):
+        x = fpy_operand(mx, ex)
+        hi, lo = fpy_val(result)
+        return {
+            'exact': hi + lo == x,
+            'lo_small': abs(lo) * pow2(p - s) <= abs(hi) * 1 or x == 0,
+            'hi_fits': hi == fpy_rne(hi, p - s),
+            # radix 2: the low part even fits s - 1 digits when s >= 2 (its sign carries one digit); s digits always
+            'lo_fits': lo == fpy_rne(lo, s),
+            'hi_nearest': abs(hi - x) == abs(fpy_rne(x, p - s) - x),
+        }
+
+    def raises(mx, ex, s, p, rm, ctx):
+        return {}
+
+
+class eftx_veltkamp_split_p5(Contract):
+    target = 'fpy2.libraries.eft:veltkamp_split'
+    params = {'mx': 'int', 'ex': 'int', 's': 'int', 'p': 'int', 'rm': 'RoundingMode', 'ctx': 'FpyCtx'}
+    returns = 'tuple[Fraction, Fraction]'
+    properties = ['C20']
+    split = ['p', 's', 'rm']
+    options = {'dialect': 'fpy', 'fpy_rnd': 'param', 'bounded': 6, 'bv_enum': True, 'bounded_try_ms': 150000, 'bounded_ms': 60000,
+               'int_cases': {'p': [5], 's': [1, 2, 3, 4]}, 'enum_cases': {'rm': ['RNE', 'RNA']},
+               'fpy_operands': {'x': ('mx', 'ex')}}
+    note = ('BOUNDED: RNE and RNA at p = 5 digits, EVERY split position 1 <= s <= p - 1 (enough precision: the constant '
+            '2^s + 1 must be representable), exponents in [-6,6]; includes the split point ceil(p/2) that classic_2mul uses')
 
     def pre(mx, ex, s, p, rm, ctx):
         return {'mx': -pow2(p) < mx and mx < pow2(p), 'ex': -6 <= ex and ex <= 6, 's_range': 1 <= s and s <= p - 1}
